@@ -39,7 +39,7 @@ let rec is_prefix a b = match a, b with
 
 let run (_prop : ostring) (inp : Sx.t) (obs : Sx.t) : outcome =
   match inp with
-  | Sx.L [ca; cb; evs] ->
+  | Sx.L (ca :: cb :: evs :: _) ->
     let ca = cfg_sx ca and cb = cfg_sx cb in
     let events = list_sx pev_sx evs in
     let rec go p was_up = function
